@@ -332,3 +332,16 @@ Definition session_execute_batch (version typ : Z) (entries : list (bytes * opti
            (cl serial : Z) (dts : bool) (dtsv : Z) (payload : payload_t) : option request :=
   if session_batch_refused (len entries) then None
   else conn_execute_batch version typ entries cl serial dts dtsv payload.
+
+(* marshalQueryValue (conn.go) for a bind marker of type blob: a *namedValue wrapper is unwrapped first (its
+   name kept), then UnsetValue gives isUnset, anything else goes through Marshal, which for blob is the
+   identity on []byte and gives nil (null) for nil.  An API-level bound value is (optional name, content). *)
+Inductive api_bound := AUnset | ANull | ABytes (b : bytes).
+
+Definition marshal_query_value (a : option bytes * api_bound) : qvalue :=
+  let name := match fst a with Some n => n | None => [] end in
+  match snd a with
+  | AUnset => mkqv None name true
+  | ANull => mkqv None name false
+  | ABytes b => mkqv (Some b) name false
+  end.
